@@ -249,6 +249,28 @@ class Tracer:
 
         wrap_mod('_simulate_price_change_effect_multiple_candles', mm_enter, mm_leave)
 
+        # ---- trade log ----
+        from jesse.store.state_completed_trades import ClosedTrades
+        orig_close = ClosedTrades.close_trade
+
+        def close_trade(ct, position):
+            n0 = len(ct.trades)
+            r = orig_close(ct, position)
+            if tr.on and len(ct.trades) > n0:
+                for t in ct.trades[n0:]:
+                    def g(f):
+                        try:
+                            return float(f())
+                        except Exception as ex:
+                            return f'raise:{type(ex).__name__}'
+                    tr.emit('trade_closed', symbol=t.symbol, exchange=t.exchange, type=t.type, n_new=len(ct.trades) - n0,
+                            qty=g(lambda: t.qty), entry=g(lambda: t.entry_price), exit=g(lambda: t.exit_price),
+                            pnl=g(lambda: t.pnl), fee=g(lambda: t.fee), opened_at=t.opened_at, closed_at=t.closed_at,
+                            orders=[tr.oid(o) for o in t.orders], total=len(ct.trades))
+            return r
+
+        ClosedTrades.close_trade = close_trade
+
         sd = getattr(bm, 'save_daily_portfolio_balance', None)
         if sd is None:
             tr.missing.append('save_daily_portfolio_balance')
